@@ -4,9 +4,16 @@ from . import core
 from .ringgen import random_sched
 
 HEADER = "From RM Require Import RingModel FullSync Chan."
-XHEADER = "From RM Require Import RingModel FullSync Chan Reserve ChanX ChanW ZeroCopy ZcUni ChanZ ChanXb."
+XHEADER = "From RM Require Import RingModel FullSync Chan Reserve ChanX ChanW ZeroCopy ZcUni ChanZ ChanXb ChanZX."
 ZRUNNERS = {"zc_atomic": "ZC.run_uni_zc_atomic", "zc_full_sync": "ZC.run_uni_zc_fullsync"}
-ZOPS = ("send", "sendw", "poll", "drive", "cancel_all", "len")
+ZOPS = ("send", "sendw", "senda", "poll", "drive", "cancel_all", "len")   # (send_with_async with a ready setter: allocation, publication and wake decision of send)
+ZXRUNNERS = {"zc_atomic": "run_unizx_atomic", "zc_full_sync": "run_unizx_fullsync"}      # ... with the reserve API (Chan/ChanZX.v)
+def coq_zxop(op):
+    n, a = op
+    if n == "res": return "ZoReserve %d %d" % (a[0], a[1])
+    if n == "sres": return "ZoSendRes %d" % a[0]
+    if n == "cres": return "ZoCancelRes %d" % a[0]
+    return "ZoBase (%s)" % coq_op(op)
 def strip_handle_drops(flat):
     """the record [2 t 17 i 0] marks the end of the drop of a payload handle in the harness; the model's release phase has no such record"""
     out = []; i = 0
@@ -31,7 +38,7 @@ XOPS = ("res", "sres", "cres", "senda")
 
 def coq_op(op):
     n, a = op
-    return {"send": "CoSend %d" % (a[0] if a else 0), "sendw": "CoSend %d" % (a[0] if a else 0), "poll": "CoPoll %d" % (a[0] if a else 0),
+    return {"send": "CoSend %d" % (a[0] if a else 0), "sendw": "CoSend %d" % (a[0] if a else 0), "senda": "CoSend %d" % (a[0] if a else 0), "poll": "CoPoll %d" % (a[0] if a else 0),
             "drive": "CoDrive %d" % (a[0] if a else 0), "cancel_all": "CoCancelAll", "len": "CoLen"}[n]
 
 def coq_xop(op):
@@ -68,6 +75,10 @@ def mk_case(chan, N, M, k, origin, progs, sched, meta=None, probe=False):
         # the zero-copy Uni channels: machine of Chan/ChanZ.v over the pool + id-ring component of Alloc/ZcUni.v
         coq = "%s %d %d %d [%s] [%s]%%nat" % (ZRUNNERS[chan], N, M, k,
                 "; ".join("[" + "; ".join(coq_op(o) for o in p) + "]" for p in progs), "; ".join(map(str, sched)))
+    elif chan in ZXRUNNERS and not probe and not switching and origin == 0 and all(n in ZOPS + ("res", "sres", "cres") for p in progs for n, a in p):
+        # ... and their reserve API: the layer of Chan/ChanZX.v (reserve = allocation, send-reserved = publication of the id, cancel = deallocation)
+        coq = "%s %d %d %d [%s] [%s]%%nat" % (ZXRUNNERS[chan], N, M, k,
+                "; ".join("[" + "; ".join(coq_zxop(o) for o in p) + "]" for p in progs), "; ".join(map(str, sched)))
     elif chan == "crossbeam" and not probe and not switching and origin == 0 and all(n in BOPS for p in progs for n, a in p):
         # the crossbeam Uni channel: the send entry points of Chan/ChanXb.v over an atomic FIFO (crossbeam's queue, one step per call)
         coq = "run_uni_crossbeam %d %d %d [%s] [%s]%%nat" % (N, M, k,
